@@ -28,12 +28,15 @@ Model/Streams.vos Model/Streams.vok Model/Streams.required_vos: Model/Streams.v 
 Model/Server.vo Model/Server.glob Model/Server.v.beautified Model/Server.required_vo: Model/Server.v Base/Bytes.vo Generated.vo Model/Resp.vo Model/Types.vo Model/Glob.vo Model/Strings.vo Model/Lists.vo Model/ZSets.vo Model/Streams.vo
 Model/Server.vio: Model/Server.v Base/Bytes.vio Generated.vio Model/Resp.vio Model/Types.vio Model/Glob.vio Model/Strings.vio Model/Lists.vio Model/ZSets.vio Model/Streams.vio
 Model/Server.vos Model/Server.vok Model/Server.required_vos: Model/Server.v Base/Bytes.vos Generated.vos Model/Resp.vos Model/Types.vos Model/Glob.vos Model/Strings.vos Model/Lists.vos Model/ZSets.vos Model/Streams.vos
+Model/Conn.vo Model/Conn.glob Model/Conn.v.beautified Model/Conn.required_vo: Model/Conn.v Base/Bytes.vo Generated.vo Model/Resp.vo Model/Types.vo Model/Server.vo
+Model/Conn.vio: Model/Conn.v Base/Bytes.vio Generated.vio Model/Resp.vio Model/Types.vio Model/Server.vio
+Model/Conn.vos Model/Conn.vok Model/Conn.required_vos: Model/Conn.v Base/Bytes.vos Generated.vos Model/Resp.vos Model/Types.vos Model/Server.vos
 Model/RunBase.vo Model/RunBase.glob Model/RunBase.v.beautified Model/RunBase.required_vo: Model/RunBase.v Base/Bytes.vo Model/Resp.vo
 Model/RunBase.vio: Model/RunBase.v Base/Bytes.vio Model/Resp.vio
 Model/RunBase.vos Model/RunBase.vok Model/RunBase.required_vos: Model/RunBase.v Base/Bytes.vos Model/Resp.vos
-Model/RunSrv.vo Model/RunSrv.glob Model/RunSrv.v.beautified Model/RunSrv.required_vo: Model/RunSrv.v Base/Bytes.vo Model/Resp.vo Model/Types.vo Model/Server.vo Model/RunBase.vo
-Model/RunSrv.vio: Model/RunSrv.v Base/Bytes.vio Model/Resp.vio Model/Types.vio Model/Server.vio Model/RunBase.vio
-Model/RunSrv.vos Model/RunSrv.vok Model/RunSrv.required_vos: Model/RunSrv.v Base/Bytes.vos Model/Resp.vos Model/Types.vos Model/Server.vos Model/RunBase.vos
+Model/RunSrv.vo Model/RunSrv.glob Model/RunSrv.v.beautified Model/RunSrv.required_vo: Model/RunSrv.v Base/Bytes.vo Model/Resp.vo Model/Types.vo Model/Server.vo Model/Conn.vo Model/RunBase.vo
+Model/RunSrv.vio: Model/RunSrv.v Base/Bytes.vio Model/Resp.vio Model/Types.vio Model/Server.vio Model/Conn.vio Model/RunBase.vio
+Model/RunSrv.vos Model/RunSrv.vok Model/RunSrv.required_vos: Model/RunSrv.v Base/Bytes.vos Model/Resp.vos Model/Types.vos Model/Server.vos Model/Conn.vos Model/RunBase.vos
 Model/Run.vo Model/Run.glob Model/Run.v.beautified Model/Run.required_vo: Model/Run.v Base/Bytes.vo Model/Resp.vo Model/RunBase.vo Model/RunSrv.vo
 Model/Run.vio: Model/Run.v Base/Bytes.vio Model/Resp.vio Model/RunBase.vio Model/RunSrv.vio
 Model/Run.vos Model/Run.vok Model/Run.required_vos: Model/Run.v Base/Bytes.vos Model/Resp.vos Model/RunBase.vos Model/RunSrv.vos
